@@ -20,6 +20,7 @@ import os
 import numpy as np
 
 from . import common
+from . import c01_generic as G
 
 
 def quiet(fn, *a, **k):
@@ -1021,7 +1022,7 @@ def traced(cls, target, reads, writes):
                 setattr(cls, nm, orig)
 
 
-def sandwich(ctx, cname, spec, table, usable):
+def sandwich(ctx, cname, spec, table, usable, invokers=None):
     """observed attribute writes of every mutator and observed field reads of every cached
     method must be contained in what the translator derived from the source"""
     cls = spec["cls"]
@@ -1034,10 +1035,16 @@ def sandwich(ctx, cname, spec, table, usable):
     universe = {u for u in universe if "." not in u and u != "silence_level"}
     bad = []
     nchecked = 0
-    for oname, mut in spec["mutators"].items():
+    allmuts = dict(spec["mutators"])
+    for oname, (src, f, raising) in (invokers or {}).items():
+        if not raising and oname not in allmuts and "." not in oname:
+            allmuts[oname] = f
+    for oname, mut in allmuts.items():
         if oname not in muts:
             continue
         obj = quiet(spec["make"], rng)
+        if oname not in spec["mutators"]:
+            G.prepare(obj, rng)
         r, w = set(), set()
         try:
             with traced(cls, obj, r, w):
@@ -1128,6 +1135,153 @@ def mi_file_history(ctx):
                 break
 
 
+def derive_invokers(ctx, cname, spec, table):
+    """one invoker per translator-known public mutator of the class: (source, f, raising);
+    `missing` = mutators for which none could be derived"""
+    cls, rng = spec["cls"], ctx.rng
+    inv, missing = {}, []
+    for oname in sorted(table.get("mutators", {})):
+        src, cands = G.candidates(cname, cls, spec, oname)
+        if not cands:
+            missing.append(f"{cname}.{oname}")
+            continue
+        chosen = None
+        if src == "spec":
+            chosen = cands[0]
+        else:
+            for f in cands:
+                try:
+                    probe = quiet(spec["make"], rng)
+                    G.prepare(probe, rng)
+                except Exception:  # noqa
+                    break
+                if G.seeded_call(f, probe, rng, 1) is None:
+                    chosen = f
+                    break
+        inv[oname] = (src, chosen or cands[0], chosen is None)
+        ctx.count(f"{cname}:invoker:{src}" + (":raises" if chosen is None else ""))
+    return inv, missing
+
+
+def generic_stage(ctx, cname, spec, t, usable, invokers, quick):
+    """replay-twin / recomputation / Network-level-twin oracles for EVERY translator-known
+    mutator of the class (see harness/c01_generic.py)"""
+    cls, rng = spec["cls"], ctx.rng
+    muts, meths = t.get("mutators", {}), t.get("methods", {})
+    extra_q = [] if spec.get("only_summary") else G.weighted_queries(cls)
+    done = []
+    for oname, (src, f, raising) in invokers.items():
+        w = set(muts[oname]["writes"])
+        rel = [q for q in usable if q[0] in meths and w & set(meths[q[0]]["reads"])]
+        oth = [q for q in usable if q not in rel]
+        if src == "spec":        # the pairs stage already runs all queries against the fresh twin
+            k = (4, 2) if quick else (12, 6)
+        else:
+            k = (8, 4) if quick else (40, 20)
+        qs = rng.sample(rel, min(len(rel), k[0])) + rng.sample(oth, min(len(oth), k[1])) + extra_q
+        try:
+            a, b = G.make_pair(spec, rng)
+            st = rng.getstate()
+            G.prepare(a, rng)
+            rng.setstate(st)
+            G.prepare(b, rng)
+        except Exception as ex:  # noqa
+            ctx.count(f"{cname}:generic:make-raises:{type(ex).__name__}")
+            continue
+        key = lambda m, kw: (m, str(kw))  # noqa
+        before = {key(m, kw): G.outcome(lambda: quiet(getattr(a, m), **kw)) for m, kw in qs}
+        for expr in spec["summary"]:
+            try:
+                eval_summary(a, expr)
+            except Exception:  # noqa
+                pass
+        seed = rng.randrange(2 ** 31)
+        st = rng.getstate()
+        ea = G.seeded_call(f, a, rng, seed)
+        rng.setstate(st)
+        eb = G.seeded_call(f, b, rng, seed)
+        done.append(oname)
+        ctx.count(f"{cname}:generic:mutators")
+        if ea is not None:
+            ctx.count(f"{cname}:generic:mutator-raises:{oname}:{type(ea).__name__}")
+        replay = type(ea) is type(eb) and G.same_state(a, b, same)
+        if not replay:
+            ctx.count(f"{cname}:generic:not-replayable:{oname}")
+        after = {key(m, kw): G.outcome(lambda: quiet(getattr(a, m), **kw)) for m, kw in qs
+                 if not skip_now(a, m)}
+        summ = {}
+        for expr in spec["summary"]:
+            summ[expr] = G.outcome(lambda: eval_summary(a, expr))
+
+        def eq(x, y):
+            return x[0] == y[0] and (same(x[1], y[1]) if x[0] == "value" else x[1] == y[1])
+
+        def report(kind, what, oracle, got, want, extra=None):
+            sig = {"kind": kind, "class": cname, "mutator": oname, "oracle": oracle}
+            sig["query" if kind == "stale-query" else "attribute"] = what
+            ctx.fail(sig, f"{cname}.{what} after {oname} ({src} invoker) is {brief(got[1])} but "
+                     f"{oracle} gives {brief(want[1])}",
+                     dict(sig, args=extra, observed=brief(got[1]), expected=brief(want[1])))
+        # ---- replay twin ---------------------------------------------------------------
+        if replay:
+            for m, kw in qs:
+                if key(m, kw) not in after:
+                    continue
+                ob = G.outcome(lambda: quiet(getattr(b, m), **kw))
+                ctx.case((cname, "generic", m, str(kw), oname), not eq(before[key(m, kw)], ob),
+                         {"class": cname, "query": m, "args": kw, "mutator": oname})
+                ctx.count(f"{cname}:generic:pairs")
+                if not eq(after[key(m, kw)], ob):
+                    # a measure that is not a function of the inputs (solver start vectors)?
+                    quiet(b.cache_clear)
+                    ob2 = G.outcome(lambda: quiet(getattr(b, m), **kw))
+                    if eq(ob, ob2) and not eq(G.outcome(lambda: quiet(getattr(a, m), **kw)), ob2):
+                        report("stale-query", m, "replay-twin", after[key(m, kw)], ob, kw)
+            for expr in spec["summary"]:
+                sb = G.outcome(lambda: eval_summary(b, expr))
+                if not eq(summ[expr], sb):
+                    report("stale-summary", expr, "replay-twin", summ[expr], sb)
+        # ---- Network-level fresh twin --------------------------------------------------
+        nl = G.network_level(cls, t, qs)
+        if nl and ea is None:
+            try:
+                nt = quiet(G.network_twin, a)
+            except Exception as ex:  # noqa
+                nt = None
+                ctx.count(f"{cname}:generic:network-twin-raises:{type(ex).__name__}")
+            if nt is not None:
+                for m, kw in nl:
+                    if key(m, kw) not in after or (kw and "gw" not in nt.graph.es.attributes()):
+                        continue
+                    on = G.outcome(lambda: quiet(getattr(nt, m), **kw))
+                    ctx.count(f"{cname}:generic:network-twin-pairs")
+                    if not eq(after[key(m, kw)], on):
+                        on2 = G.outcome(lambda: quiet(getattr(quiet(G.network_twin, a), m), **kw))
+                        if eq(on, on2):
+                            report("stale-query", m, "network-twin", after[key(m, kw)], on, kw)
+                for expr in SUMMARY_NET:
+                    if expr in summ:
+                        sn = G.outcome(lambda: eval_summary(nt, expr))
+                        if not eq(summ[expr], sn):
+                            report("stale-summary", expr, "network-twin", summ[expr], sn)
+        # ---- recomputation on the same object ------------------------------------------
+        try:
+            quiet(a.cache_clear)
+        except Exception:  # noqa
+            continue
+        for m, kw in qs:
+            if key(m, kw) not in after:
+                continue
+            oc = G.outcome(lambda: quiet(getattr(a, m), **kw))
+            ctx.count(f"{cname}:generic:recomputed")
+            if not eq(after[key(m, kw)], oc):
+                quiet(a.cache_clear)
+                oc2 = G.outcome(lambda: quiet(getattr(a, m), **kw))
+                if eq(oc, oc2):
+                    report("stale-query", m, "recomputation", after[key(m, kw)], oc, kw)
+    return done
+
+
 def run(ctx):
     # several classes write files to the working directory (MI dumps): work in a scratch one
     import tempfile
@@ -1162,6 +1316,7 @@ def _run(ctx):
                                      for c, t in tables.items()}
     hist_reqs, hist_impl, hist_meta = [], [], []
     sw_checked, sw_bad = 0, []
+    unexercised, n_mutators = [], 0
 
     for cname, mk in SPECS.items():
         spec = mk()
@@ -1250,21 +1405,38 @@ def _run(ctx):
                              f"reports {brief(b)}",
                              {"class": cname, "attribute": expr, "mutator": oname,
                               "observed": brief(a), "fresh": brief(b)})
+        # ---- every translator-known public mutator (round 3) --------------------------------
+        invokers, missing = derive_invokers(ctx, cname, spec, t)
+        unexercised += missing
+        done = generic_stage(ctx, cname, spec, t, usable, invokers, quick)
+        unexercised += [f"{cname}.{o} (never ran)" for o in invokers if o not in done]
+        n_mutators += len(t.get("mutators", {}))
         # ---- translator sandwich -----------------------------------------------------------
-        nck, bad_sw = sandwich(ctx, cname, spec, t, usable)
+        nck, bad_sw = sandwich(ctx, cname, spec, t, usable, invokers)
         sw_checked += nck
         sw_bad += bad_sw
         # ---- hit/miss correspondence: a fresh object per (query, mutator) -------------------
-        for oname, mut in spec["mutators"].items():
+        hm_muts = [(o, f, True) for o, f in spec["mutators"].items()] + \
+                  [(o, f, False) for o, (src, f, raising) in invokers.items()
+                   if src != "spec" and not raising]
+        for oname, mut, is_spec in hm_muts:
             if oname not in onames:
                 continue
-            for m, kw in usable:
-                if kw or m not in mnames or not hasattr(getattr(cls, m), "cache_info"):
-                    continue
+            cand = [(m, kw) for m, kw in usable
+                    if not kw and m in mnames and hasattr(getattr(cls, m), "cache_info")]
+            if not is_spec:     # derived invokers: a sample per mutator (all in the thorough tier)
+                cand = rng.sample(cand, min(len(cand), 3 if quick else 24))
+            for m, kw in cand:
                 try:
                     obj = quiet(spec["make"], rng)
+                    if not is_spec:
+                        G.prepare(obj, rng)
                     quiet(getattr(obj, m))
-                    quiet(mut, obj, rng)
+                    if is_spec:
+                        quiet(mut, obj, rng)
+                    elif not G.effective(oname, obj) or \
+                            G.seeded_call(mut, obj, rng, 7) is not None:
+                        continue
                     ci0 = getattr(cls, m).cache_info()
                     quiet(getattr(obj, m))
                     ci1 = getattr(cls, m).cache_info()
@@ -1328,6 +1500,10 @@ def _run(ctx):
                              {"class": cname, "attribute": expr, "history": trace,
                               "observed": brief(a), "fresh": brief(b)})
 
+    ctx.obligation(f"coverage: every translator-known public mutator of every driven class is "
+                   f"exercised by a spec mutator or a derived invoker ({n_mutators} (class, mutator) "
+                   f"pairs)", "coverage", not unexercised, "\n".join(unexercised[:20]))
+    ctx.extra["mutators_exercised"] = n_mutators - len(unexercised)
     ctx.obligation(f"translator sandwich: observed attribute writes of mutators and field reads of "
                    f"cached methods are contained in the static tables ({sw_checked} traced calls)",
                    "translator", not sw_bad, "\n".join(sw_bad[:12]))
